@@ -202,7 +202,7 @@ def run(prog: Program, rep: Report, tier: str):
         sp = split_scaled(fa, P_, n)
         if sp is not None:
             mixes.append((n, c, own_, L_, sp[0], sp[1]))
-    rep.floor("mix statements in getitem_xclass", len(mixes), 2)
+    rep.floor("mix statements in getitem_xclass", len(mixes), 1)
     lam_vars = set()
     roles = {}
     if own_x and own_c and par_x and par_c:
@@ -294,7 +294,11 @@ def run(prog: Program, rep: Report, tier: str):
                     nc = dict(t[3]).get("n_classes", t[2][1] if len(t[2]) > 1 else None)
                     good = nc is not None and any(x[0] == "call" and (x[1] == ("self", "getdim_class") or (
                         x[1][0] == "attr" and x[1][2] == "getdim_class")) for x in subterms(nc))
-                ok = ok and good
+                elif t is not None and t[0] == "call" and not (t[1][0] == "attr" and t[1][2] == "getitem_class"):
+                    # built by some other construction (a row of a look-up table, another encoder): not decided - only the raw
+                    # loaded label is a definite violation
+                    good = None
+                ok = None if (good is None and ok is not False) else (ok and bool(good) if good is not None else ok)
         rep.decide(ok, "G8.label-one-hot", fi, f"return@{fa.line(n) - fi.node.lineno}", "label is one-hot encoded on this return",
                    "a return hands back a label that did not pass to_one_hot_vector(..., n_classes=self.getdim_class()): "
                    "unmixed samples would carry an integer label", line=fa.line(n), clause="C11.4")
